@@ -20,8 +20,8 @@ prop(
          "alerts, reject, link, for, keep_firing_for, name, range_query, report; spread over 1-4 rule{} blocks, random severities, 1-2 "
          "prometheus blocks pointing at the fake server, sometimes a pre-disabled other check) + 1-5 rule files made of rules written to "
          "trigger every reporter (plus a removed file for rule/dependency and a broken file for parse errors); EVERY document is tested "
-         "against all 27 names x {checks{disabled}, --disabled, rule{disable}, checks{enabled}, --enabled} + --offline (136 evaluations "
-         "per document; the binary stage: 55 per document). Problems are compared as multisets keyed (file, rule, rule line, reporter, "
+         "against all 27 names x {checks{disabled}, --disabled, rule{disable}, checks{enabled}, --enabled} + --offline (137 evaluations "
+         "per document incl. the default-enabled-list reference relation: default run == run with checks{enabled=[]}; the binary stage: 56 per document). Problems are compared as multisets keyed (file, rule, rule line, reporter, "
          "summary, severity). Non-trivial: the name N reports at least one problem in the baseline and at least one other reporter does "
          "too (offline: both an online and an offline reporter present).",
     level_text="Generated-input search (rapid, fixed seeds) with a metamorphic oracle: the expected problem list of every variant is computed "
